@@ -57,7 +57,7 @@ GROWTH_MAX = 300.0
 
 def plan(tier):
     if tier == "thorough":
-        return {"cases": 40000, "shards": 16, "budget_s": 780}
+        return {"cases": 32000, "shards": 16, "budget_s": 780}
     return {"cases": 2800, "shards": 8, "budget_s": 75}
 
 
